@@ -829,7 +829,13 @@ func (sc *StorageSmartContract) getAllocationForChallenge(
 	// we check that this allocation do have write-commits and can be challenged.
 	// We can't check only allocation to be written, because blobbers can commit in different order,
 	// so we check particular blobber's allocation to be written
-	if alloc.mustBase().Stats.UsedSize > 0 && alloc.mustBase().BlobberAllocsMap[blobberID].AllocationRoot != "" {
+	// the blobber's allocations partition can still list an allocation the blobber no longer serves
+	// (the entry is only removed when the blobber holds data at the time it is replaced)
+	ba, ok := alloc.mustBase().BlobberAllocsMap[blobberID]
+	if !ok {
+		return nil, nil
+	}
+	if alloc.mustBase().Stats.UsedSize > 0 && ba.AllocationRoot != "" {
 		return alloc, nil // found
 	}
 	return nil, nil
